@@ -2,7 +2,7 @@
    exclude (open findings D20: re-attaching an entity that already has a parent; D22: two
    interfaces of one node receiving one message) really break the invariant on the faithful model
    (closed by computation). The same histories replayed on the Go code are the recorded findings. *)
-From Acme.C04 Require Import ProofsTac Proofs_Step.
+From Acme.C04 Require Import ProofsTac Proofs_Step Spec.
 
 (* boolean form of the side conditions *)
 Definition free_or (p : option handle) (h : handle) : bool := bool_decide (p = None ∨ p = Some h).
@@ -169,3 +169,6 @@ Example released_key_reused :
   [ Ok; Ok; Ok; Ok; Err [(Duplicated, WName)]; Ok; Err [(Duplicated, WMessageID)]; Ok; Ok; Ok;
     Err [(Duplicated, WCANID)]; Ok; Ok ].
 Proof. vm_compute. reflexivity. Qed.
+
+Lemma covered_count : length covered_mutators = 33 ∧ length all_mutators = 57.
+Proof. split; vm_compute; reflexivity. Qed.
